@@ -84,6 +84,62 @@ func runProtlog(c *vk.Ctx) {
 			}
 		}
 	}
+	// the same writes under a W^X policy: every request for write+execute is refused, goom has to
+	// take its write-then-execute path; the bytes must land, nothing may fault and the pages must
+	// be r-x again afterwards (the X-bit clause cannot hold on this path and is not judged here)
+	if c.Shard == 1%c.NShards {
+		vsys.MprotectDeny = func(prot int) bool {
+			return prot&syscall.PROT_WRITE != 0 && prot&syscall.PROT_EXEC != 0
+		}
+		base := zz.PlaceholderAddr()
+		ps := uintptr(syscall.Getpagesize())
+		first := (base + ps) &^ (ps - 1)
+		for b := first; b < first+2*ps; b += ps {
+			for off := -40; off <= 8; off += 4 {
+				for _, ln := range []int{1, 13, 33, 64} {
+					addr := uintptr(int(b) + off)
+					orig := vk.Copy(addr, ln)
+					data := make([]byte, ln)
+					for i := range data {
+						data[i] = orig[i] ^ 0x5a
+					}
+					name := fmt.Sprintf("placeholder@boundary%+d len %d", off, ln)
+					cs := ProtCase{"protlog", name, "write-under-w^x"}
+					c.Res.Evaluations++
+					c.Res.Traces++
+					c.Res.States++
+					for phase, src := range [][]byte{data, orig} {
+						var werr error
+						msg, p := vk.Try(func() { werr = zz.WriteTo(addr, src) })
+						c.Res.Transitions++
+						switch {
+						case p:
+							c.Violate("protlog class=w^x-write-panicked", fmt.Sprintf("write-under-w^x %s (phase %d): %s", name, phase, vk.Short(msg, 160)), cs)
+						case werr != nil:
+							c.Violate("protlog class=w^x-write-error", fmt.Sprintf("write-under-w^x %s (phase %d): %v", name, phase, werr), cs)
+						case string(vk.Raw(addr, ln)) != string(src):
+							c.Violate("protlog class=w^x-bytes-did-not-land", fmt.Sprintf("write-under-w^x %s (phase %d): memory differs from the data written", name, phase), cs)
+						}
+						maps := vk.Maps()
+						for pg := addr &^ (ps - 1); pg < addr+uintptr(ln); pg += ps {
+							if perm := vk.PermAt(maps, pg); perm != "r-xp" {
+								c.Violate("protlog class=w^x-page-left-"+perm, fmt.Sprintf("write-under-w^x %s (phase %d): afterwards the page at boundary%+d is %s", name, phase, int(pg)-int(b), perm), cs)
+								_ = syscall.Mprotect(vk.Raw(pg, int(ps)), syscall.PROT_READ|syscall.PROT_EXEC)
+							}
+						}
+					}
+					if string(vk.Raw(addr, ln)) != string(orig) {
+						// put the original bytes back ourselves
+						_ = syscall.Mprotect(vk.Raw(addr&^(ps-1), int(2*ps)), syscall.PROT_READ|syscall.PROT_WRITE|syscall.PROT_EXEC)
+						copy(vk.Raw(addr, ln), orig)
+						_ = syscall.Mprotect(vk.Raw(addr&^(ps-1), int(2*ps)), syscall.PROT_READ|syscall.PROT_EXEC)
+					}
+				}
+			}
+		}
+		vsys.MprotectDeny = nil
+		vsys.ResetLog()
+	}
 	c.Res.Extra["protlog_targets"] = len(targets)
 	_ = reflect.TypeOf
 }
